@@ -457,6 +457,44 @@ def simulated_behaviours(ctx, nsim):
     return behs
 
 
+# --------------------------------------------------------------------------- targeted: the real 'reduce-split' route
+def targeted_traces(rng, tid0, rounds):
+    """'reduce-split' only takes its QR route when a site tensor has three or more other legs (else it falls back to
+    'split'): 2x3 grids and a graph with a degree-three node, pairs that contain such a tensor, every op, through
+    gate / gate_inds / gate_sandwich / gate_simple (whose default contraction is 'reduce-split')."""
+    geoms = [(U.Geom("pepo23", "pepo", [2] * 6, 2, 3), False), (GEOMS["peps23"], True),
+             (U.Geom("gen6", "gen", [2] * 6, edges=[(0, 1), (1, 2), (2, 3), (3, 0), (1, 4), (4, 5)]), True),
+             (U.Geom("peps23m", "peps", [2, 3, 2, 3, 2, 2], 2, 3), False)]
+    out = []
+    for rd in range(rounds):
+        for g, exact in geoms:
+            deg = {k: sum(1 for e in g.edges if k in e) for k in range(g.n)}
+            pairs = [e for e in g.edges if deg[e[0]] >= 3 or deg[e[1]] >= 3]
+            tr = Trace(g, tid0 + len(out), rng.randrange(1 << 30), dtype="complex128", exact=exact, source="targeted")
+            if not exact:
+                tr.cap = 1e30
+            entries = ["gate", "gate_inds", "gate_simple"] + (["gate_sandwich"] if g.kind == "op" else [])
+            n = 0
+            for _ in range(12):
+                if n >= (3 if exact else 5):
+                    break
+                e = rng.choice(entries)
+                a_, b_ = rng.choice(pairs)
+                pos = [a_, b_] if rng.random() < 0.5 else [b_, a_]
+                which = "sandwich" if g.kind == "op" else "site"
+                G = rand_gate(tr.rng, tr.nprng, [g.dims[p] for p in pos], tr.budget(which))
+                if G is None:
+                    break
+                a = dict(entry=e, mode="exact" if e == "gate_simple" else "reduce-split", pos=pos, which=which,
+                         op=rng.choice("NTH"), G=G)
+                a = decorate(rng, g, a)
+                a.pop("simple_contract", None)
+                if tr.step(a):
+                    n += 1
+            out.append(tr)
+    return out
+
+
 # --------------------------------------------------------------------------- numpy reference <-> specification
 def ref_records(seed, n, tid0):
     rng = random.Random(seed)
@@ -585,6 +623,11 @@ def run(ctx):
                 break
             if tr.step(a):
                 n += 1
+        recs += tr.recs
+        ntr += 1
+
+    # 4b. the real 'reduce-split' route (tensors with three or more other legs)
+    for tr in targeted_traces(rng, ntr, 1 if quick else 12):
         recs += tr.recs
         ntr += 1
 
